@@ -4,7 +4,7 @@
     which the integrand was called).  [val], [wrn], [trc] are the three projections. *)
 From Coq Require Import Reals ZArith List.
 From Coquelicot Require Import Coquelicot.
-From LP Require Import Num NumR C03_Model C03_Proofs C03_Proofs_Remainder.
+From LP Require Import Num NumR C03_Model C03_Proofs C03_Proofs_Remainder C03_Proofs_Seq.
 Import ListNotations.
 Local Open Scope R_scope.
 
@@ -108,3 +108,50 @@ Theorem C03_error_bound_partial (f : R -> R) (a b eps m sg : R) (depth : Z) :
   Rabs (val (integrate ROps f a b eps depth) - RInt f a b) <= 4 * Rabs eps.
 Proof. exact (error_bound_partial f a b eps m sg depth). Qed.
 Print Assumptions C03_error_bound_partial.
+
+(** The other ways into the same integrator.  Integrate(f,a,b,epsilon) is Integrate(f,a,b,epsilon,20) (default
+    argument of the declaration), so every theorem above covers it with depth := 20. *)
+Theorem C03_default_depth (f : R -> R) (a b eps : R) :
+  integrate_default ROps f a b eps = integrate ROps f a b eps 20.
+Proof. exact (default_depth f a b eps). Qed.
+Print Assumptions C03_default_depth.
+
+(** Integrate(f,a,b,"Adaptive-Simpson") (epsilon chosen by Find_Epsilon(f,a,b,1e-9), default depth): exact on every
+    polynomial of degree five or less, limits in either order or equal. *)
+Theorem C03_method_quintic_exact (c0 c1 c2 c3 c4 c5 a b : R) :
+  val (integrate_method ROps (fun x => c0 + c1 * x + c2 * x ^ 2 + c3 * x ^ 3 + c4 * x ^ 4 + c5 * x ^ 5) a b)
+  = RInt (fun x => c0 + c1 * x + c2 * x ^ 2 + c3 * x ^ 3 + c4 * x ^ 4 + c5 * x ^ 5) a b.
+Proof. exact (method_quintic_exact c0 c1 c2 c3 c4 c5 a b). Qed.
+Print Assumptions C03_method_quintic_exact.
+
+(** ... swapping its limits negates the result exactly, *)
+Theorem C03_method_swap_negates (f : R -> R) (a b : R) :
+  val (integrate_method ROps f b a) = - val (integrate_method ROps f a b) /\
+  wrn (integrate_method ROps f b a) = wrn (integrate_method ROps f a b) /\
+  trc (integrate_method ROps f b a) = trc (integrate_method ROps f a b).
+Proof. exact (method_swap_negates f a b). Qed.
+Print Assumptions C03_method_swap_negates.
+
+(** ... and all its evaluations (those of Find_Epsilon included) lie in the closed interval, at most 2^22+4 of them. *)
+Theorem C03_method_points_inside_and_count (f : R -> R) (a b : R) :
+  List.Forall (fun x => Rmin a b <= x <= Rmax a b) (trc (integrate_method ROps f a b)) /\
+  (length (trc (integrate_method ROps f a b)) <= 2 ^ 22 + 4)%nat.
+Proof. exact (conj (method_points_inside f a b) (method_count f a b)). Qed.
+Print Assumptions C03_method_points_inside_and_count.
+
+(** "for any epsilon and depth" includes any call history: in a sequence of calls of Integrate (explicit or default
+    depth, string overload) and Find_Epsilon made in one process, the answer at every position is the answer of that
+    call made alone ([run_seq] threads the state of section 1.1 of Integration.cpp, which is empty). *)
+Theorem C03_history_free (pre post : list (call (T := R))) (c : call (T := R)) :
+  List.nth_error (run_seq ROps tt (pre ++ c :: post)) (length pre) = Some (run_call ROps c).
+Proof. exact (history_free pre post c). Qed.
+Print Assumptions C03_history_free.
+
+Theorem C03_quintic_exact_after_any_history (pre : list (call (T := R))) (c0 c1 c2 c3 c4 c5 a b eps : R) (depth : Z) :
+  option_map val (List.nth_error
+    (run_seq ROps tt (pre ++ [CInt (fun x => c0 + c1 * x + c2 * x ^ 2 + c3 * x ^ 3 + c4 * x ^ 4 + c5 * x ^ 5) a b eps depth]))
+    (length pre))
+  = Some (RInt (fun x => c0 + c1 * x + c2 * x ^ 2 + c3 * x ^ 3 + c4 * x ^ 4 + c5 * x ^ 5) a b).
+Proof. exact (quintic_exact_after_any_history pre c0 c1 c2 c3 c4 c5 a b eps depth). Qed.
+Print Assumptions C03_quintic_exact_after_any_history.
+
